@@ -182,9 +182,12 @@ fn top_calls(scn: &Scenario, res: &RunResult) -> Vec<HOp> {
     let mut out = vec![];
     for o in &res.log.ops {
         if let (OpResult::Call(cid), Some(Op::Call { .. })) = (&o.result, scn.threads[o.thread as usize].get(o.index as usize)) {
-            let desc = match res.log.calls.get(*cid as usize) {
-                Some(c) if c.op == (o.thread, o.index) => describe_call(&res.log, c),
-                _ => Desc::Skipped,
+            // (looked up by operation: under free-running threads the recorded call id may belong
+            // to a call another thread logged in between)
+            let _ = cid;
+            let desc = match res.log.calls.iter().find(|c| c.op == (o.thread, o.index) && c.parent.is_none()) {
+                Some(c) => describe_call(&res.log, c),
+                None => Desc::Skipped,
             };
             out.push(HOp { thread: o.thread as usize, index: o.index as usize, invoke: o.start_step, ret: o.end_step, desc });
         }
